@@ -1,7 +1,1933 @@
-//! C07: ROLLBACK / ROLLBACK TO restore the earlier state (engine in dmlengine.rs, focus = transactions).
-use super::dmlengine::{run_prop, Focus};
+//! C07: ROLLBACK / ROLLBACK TO SAVEPOINT restore the earlier state.
+//!
+//! Self-contained monitor (does not use the shared DML engine). The oracle is TurDB itself:
+//! an *observation vector* (table bag, COUNT(*), point lookups on every indexed column for a fixed
+//! probe set, range lookups) is taken right before BEGIN and right after every SAVEPOINT; after
+//! ROLLBACK / ROLLBACK TO / dropping the handle with the transaction open, the same vector is taken
+//! again and must be equal. No reference model is involved in that comparison, so defects of the
+//! statements executed *inside* the transaction cannot be blamed on the rollback.
+//! After a full rollback a list of later INSERTs (keys that existed / did not exist at BEGIN) is run
+//! on the rolled-back database and on a *control* database that executed only the statements before
+//! BEGIN; accept/reject outcomes and the final observation vectors must agree (judged only when the
+//! control behaves as the snapshot predicts).
+//! A failing case is shrunk (statements, savepoint structure, table features, way of ending the
+//! transaction) and the signature is built from the minimal case.
+use crate::report::{catch, Ctx};
+use crate::rng::{fnv, Rng};
+use crate::sqlm::cmp::bag_diff;
+use crate::sqlm::db::{conv_rows, is_panic, panic_tag, Scratch};
+use crate::sqlm::val::{rows_json, Row, V};
 use crate::Args;
+use serde_json::{json, Value as J};
+use std::collections::{BTreeMap, BTreeSet};
+use std::path::Path;
+
+// ------------------------------------------------------------------------------------------ cases
+
+#[derive(Clone, Copy, Debug, PartialEq, Eq, PartialOrd, Ord)]
+enum KeyKind {
+    NoPk,
+    IntPk,
+    TextPk,
+}
+
+/// one table `t`: [id BIGINT PRIMARY KEY | k TEXT PRIMARY KEY | -], [u BIGINT UNIQUE], a BIGINT, tag TEXT, p TEXT
+#[derive(Clone, Copy, Debug, PartialEq, Eq)]
+struct Spec {
+    key: KeyKind,
+    uniq: bool,
+    idx_a: bool,
+}
+
+impl Spec {
+    fn create_sql(&self) -> Vec<String> {
+        let mut cols = vec![];
+        match self.key {
+            KeyKind::IntPk => cols.push("id BIGINT PRIMARY KEY".to_string()),
+            KeyKind::TextPk => cols.push("k TEXT PRIMARY KEY".to_string()),
+            KeyKind::NoPk => {}
+        }
+        if self.uniq {
+            cols.push("u BIGINT UNIQUE".into());
+        }
+        cols.push("a BIGINT".into());
+        cols.push("tag TEXT".into());
+        cols.push("p TEXT".into());
+        let mut out = vec![format!("CREATE TABLE t ({})", cols.join(", "))];
+        if self.idx_a {
+            out.push("CREATE INDEX ix_a ON t (a)".into());
+        }
+        out
+    }
+    fn traits(&self) -> String {
+        format!(
+            "{}{}{}",
+            match self.key {
+                KeyKind::NoPk => "nopk",
+                KeyKind::IntPk => "intpk",
+                KeyKind::TextPk => "textpk",
+            },
+            if self.uniq { "+unique" } else { "" },
+            if self.idx_a { "+index" } else { "" }
+        )
+    }
+    fn key_col(&self) -> Option<&'static str> {
+        match self.key {
+            KeyKind::IntPk => Some("id"),
+            KeyKind::TextPk => Some("k"),
+            KeyKind::NoPk => None,
+        }
+    }
+    fn key_lit(&self, key: u32) -> String {
+        match self.key {
+            KeyKind::TextPk => format!("'k{:04}'", key),
+            _ => format!("{}", key),
+        }
+    }
+    /// index of the key column in `SELECT *` and the model value of a key
+    fn key_val(&self, key: u32) -> V {
+        match self.key {
+            KeyKind::TextPk => V::Text(format!("k{:04}", key)),
+            _ => V::Int(key as i64),
+        }
+    }
+    fn u_pos(&self) -> Option<usize> {
+        if self.uniq {
+            Some(if self.key == KeyKind::NoPk { 0 } else { 1 })
+        } else {
+            None
+        }
+    }
+}
+
+/// abstract row; the tag column is always `t<key>` so that every table variant can address a row
+#[derive(Clone, Debug, PartialEq)]
+struct R {
+    key: u32,
+    u: i64,
+    a: Option<i64>,
+    p: Option<String>,
+}
+
+fn sql_text(s: &str) -> String {
+    format!("'{}'", s.replace('\'', "''"))
+}
+
+fn row_sql(spec: &Spec, r: &R) -> String {
+    let mut v = vec![];
+    if spec.key != KeyKind::NoPk {
+        v.push(spec.key_lit(r.key));
+    }
+    if spec.uniq {
+        v.push(format!("{}", r.u));
+    }
+    v.push(r.a.map(|x| x.to_string()).unwrap_or_else(|| "NULL".into()));
+    v.push(format!("'t{}'", r.key));
+    v.push(r.p.as_ref().map(|s| sql_text(s)).unwrap_or_else(|| "NULL".into()));
+    format!("({})", v.join(", "))
+}
+
+#[derive(Clone, Debug, PartialEq)]
+enum Pred {
+    Key(u32),
+    U(i64),
+    A(i64),
+    All,
+}
+
+impl Pred {
+    fn sql(&self, spec: &Spec) -> Option<String> {
+        Some(match self {
+            Pred::Key(k) => match spec.key_col() {
+                Some(c) => format!(" WHERE {} = {}", c, spec.key_lit(*k)),
+                None => format!(" WHERE tag = 't{}'", k),
+            },
+            Pred::U(v) => {
+                if !spec.uniq {
+                    return None;
+                }
+                format!(" WHERE u = {}", v)
+            }
+            Pred::A(v) => format!(" WHERE a = {}", v),
+            Pred::All => String::new(),
+        })
+    }
+    fn hits(&self, r: &R) -> bool {
+        match self {
+            Pred::Key(k) => r.key == *k,
+            Pred::U(v) => r.u == *v,
+            Pred::A(v) => r.a == Some(*v),
+            Pred::All => true,
+        }
+    }
+}
+
+#[derive(Clone, Debug, PartialEq)]
+enum Op {
+    Insert(Vec<R>),
+    SetA(Pred, Option<i64>),
+    IncA(Pred),
+    SetP(Pred, Option<String>),
+    SetU(Pred, i64),
+    SetKey(Pred, u32),
+    Delete(Pred),
+}
+
+const TOAST: usize = 1000; // turdb::storage::toast::TOAST_THRESHOLD
+
+impl Op {
+    fn sql(&self, spec: &Spec) -> Option<String> {
+        Some(match self {
+            Op::Insert(rows) => format!("INSERT INTO t VALUES {}", rows.iter().map(|r| row_sql(spec, r)).collect::<Vec<_>>().join(", ")),
+            Op::SetA(p, v) => format!("UPDATE t SET a = {}{}", v.map(|x| x.to_string()).unwrap_or_else(|| "NULL".into()), p.sql(spec)?),
+            Op::IncA(p) => format!("UPDATE t SET a = a + 1{}", p.sql(spec)?),
+            Op::SetP(p, v) => format!("UPDATE t SET p = {}{}", v.as_ref().map(|s| sql_text(s)).unwrap_or_else(|| "NULL".into()), p.sql(spec)?),
+            Op::SetU(p, v) => {
+                if !spec.uniq {
+                    return None;
+                }
+                format!("UPDATE t SET u = {}{}", v, p.sql(spec)?)
+            }
+            Op::SetKey(p, k) => match spec.key_col() {
+                Some(c) => format!("UPDATE t SET {} = {}, tag = 't{}'{}", c, spec.key_lit(*k), k, p.sql(spec)?),
+                None => format!("UPDATE t SET tag = 't{}'{}", k, p.sql(spec)?),
+            },
+            Op::Delete(p) => format!("DELETE FROM t{}", p.sql(spec)?),
+        })
+    }
+    /// statement kind for signatures
+    fn kind(&self) -> &'static str {
+        match self {
+            Op::Insert(rows) => {
+                if rows.iter().any(|r| r.p.as_ref().map(|s| s.len() > TOAST).unwrap_or(false)) {
+                    "insert_toast"
+                } else {
+                    "insert"
+                }
+            }
+            Op::SetA(..) | Op::IncA(..) => "update_a",
+            Op::SetP(_, v) => {
+                if v.as_ref().map(|s| s.len() > TOAST).unwrap_or(false) {
+                    "update_payload_toast"
+                } else {
+                    "update_payload"
+                }
+            }
+            Op::SetU(..) => "update_unique_col",
+            Op::SetKey(..) => "update_key",
+            Op::Delete(..) => "delete",
+        }
+    }
+    fn apply(&self, rows: &mut Vec<R>) {
+        match self {
+            Op::Insert(n) => rows.extend(n.iter().cloned()),
+            Op::SetA(p, v) => rows.iter_mut().filter(|r| p.hits(r)).for_each(|r| r.a = *v),
+            Op::IncA(p) => rows.iter_mut().filter(|r| p.hits(r)).for_each(|r| r.a = r.a.map(|x| x + 1)),
+            Op::SetP(p, v) => rows.iter_mut().filter(|r| p.hits(r)).for_each(|r| r.p = v.clone()),
+            Op::SetU(p, v) => rows.iter_mut().filter(|r| p.hits(r)).for_each(|r| r.u = *v),
+            Op::SetKey(p, k) => rows.iter_mut().filter(|r| p.hits(r)).for_each(|r| r.key = *k),
+            Op::Delete(p) => rows.retain(|r| !p.hits(r)),
+        }
+    }
+}
+
+#[derive(Clone, Debug, PartialEq)]
+enum Step {
+    Op(Op),
+    Begin,
+    Savepoint(u32),
+    RollbackTo(u32),
+    Release(u32),
+    Rollback,
+    Commit,
+    /// drop the handle with the transaction open, `Database::open` the same path
+    DropReopen,
+    /// clone the handle, drop the original with the transaction open, observe through the clone
+    DropClone,
+}
+
+impl Step {
+    fn sql(&self, spec: &Spec) -> Option<String> {
+        Some(match self {
+            Step::Op(o) => return o.sql(spec),
+            Step::Begin => "BEGIN".into(),
+            Step::Savepoint(i) => format!("SAVEPOINT sp{}", i),
+            Step::RollbackTo(i) => format!("ROLLBACK TO sp{}", i),
+            Step::Release(i) => format!("RELEASE sp{}", i),
+            Step::Rollback => "ROLLBACK".into(),
+            Step::Commit => "COMMIT".into(),
+            Step::DropReopen => "-- drop(db); Database::open(path)".into(),
+            Step::DropClone => "-- let c = db.clone(); drop(db); observe through c".into(),
+        })
+    }
+}
+
+#[derive(Clone, Debug)]
+struct Case {
+    spec: Spec,
+    /// wrap the statements before BEGIN in their own BEGIN..COMMIT
+    prefix_in_txn: bool,
+    /// steps[..begin_at] are the autocommit prefix
+    steps: Vec<Step>,
+    probe_keys: Vec<u32>,
+    probe_us: Vec<i64>,
+    /// later inserts after a full rollback
+    later: Vec<R>,
+}
+
+impl Case {
+    fn script(&self) -> Vec<String> {
+        let mut out = self.spec.create_sql();
+        let mut in_prefix = true;
+        if self.prefix_in_txn {
+            out.push("BEGIN".into());
+        }
+        for s in &self.steps {
+            if in_prefix && *s == Step::Begin {
+                in_prefix = false;
+                if self.prefix_in_txn {
+                    out.push("COMMIT".into());
+                }
+            }
+            if let Some(q) = s.sql(&self.spec) {
+                out.push(q);
+            }
+        }
+        out
+    }
+    /// for samples: long literals cut
+    fn script_short(&self) -> Vec<String> {
+        self.script().iter().map(|s| if s.len() > 240 { format!("{}… ({} bytes)", &s[..200], s.len()) } else { s.clone() }).collect()
+    }
+    /// kinds of the statements before BEGIN other than plain inserts (part of the signature when a minimal case needs them)
+    fn pre_kinds(&self) -> BTreeSet<String> {
+        let mut out = BTreeSet::new();
+        for s in &self.steps {
+            match s {
+                Step::Begin => break,
+                Step::Op(op) if op.sql(&self.spec).is_some() && op.kind() != "insert" => {
+                    out.insert(op.kind().to_string());
+                }
+                _ => {}
+            }
+        }
+        if self.prefix_in_txn {
+            out.insert("committed_txn".to_string());
+        }
+        out
+    }
+    fn hash(&self) -> u64 {
+        let mut s = self.spec.traits();
+        for st in &self.steps {
+            s.push_str(&st.sql(&self.spec).unwrap_or_default());
+            s.push(';');
+        }
+        fnv(s.as_bytes())
+    }
+}
+
+// ------------------------------------------------------------------------------------- generation
+
+fn payload(rng: &mut Rng, n: u64) -> Option<String> {
+    let r = rng.below(100);
+    let len = if r < 8 {
+        return None;
+    } else if r < 45 {
+        rng.usize(1, 12)
+    } else if r < 75 {
+        rng.usize(40, 260)
+    } else if r < 96 {
+        rng.usize(300, 900)
+    } else {
+        rng.usize(1100, 2600)
+    };
+    Some(pad(n, len))
+}
+
+fn pad(n: u64, len: usize) -> String {
+    let mut s = format!("p{}-", n);
+    let alphabet = b"abcdefghijklmnopqrstuvwxyz";
+    let mut i = n as usize;
+    while s.len() < len {
+        s.push(alphabet[i % 26] as char);
+        i += 7;
+    }
+    s.truncate(len.max(1));
+    s
+}
+
+struct G<'a> {
+    rng: &'a mut Rng,
+    key_max: u32,
+    rows: Vec<R>,
+    at_begin: Vec<R>,
+    ctr: u64,
+}
+
+const U_LO: i64 = 100;
+const U_HI: i64 = 180;
+
+impl<'a> G<'a> {
+    fn fresh_key(&mut self, prefer_grave: bool) -> Option<u32> {
+        if prefer_grave {
+            let grave: Vec<u32> = self.at_begin.iter().map(|r| r.key).filter(|k| !self.rows.iter().any(|r| r.key == *k)).collect();
+            if !grave.is_empty() {
+                return Some(*self.rng.pick(&grave));
+            }
+        }
+        for _ in 0..40 {
+            let k = self.rng.range(1, self.key_max as i64) as u32;
+            if !self.rows.iter().any(|r| r.key == k) {
+                return Some(k);
+            }
+        }
+        None
+    }
+    fn fresh_u(&mut self, prefer_grave: bool) -> i64 {
+        if prefer_grave {
+            let grave: Vec<i64> = self.at_begin.iter().map(|r| r.u).filter(|u| !self.rows.iter().any(|r| r.u == *u)).collect();
+            if !grave.is_empty() {
+                return *self.rng.pick(&grave);
+            }
+        }
+        loop {
+            // the pool grows with the table so that a free value always exists
+            let hi = U_HI.max(U_LO + 2 * self.rows.len() as i64 + 8);
+            let u = self.rng.range(U_LO, hi);
+            if !self.rows.iter().any(|r| r.u == u) {
+                return u;
+            }
+        }
+    }
+    fn new_row(&mut self, prefer_grave: bool) -> Option<R> {
+        let key = self.fresh_key(prefer_grave)?;
+        let grave_u = prefer_grave && self.rng.chance(1, 2);
+        let u = self.fresh_u(grave_u);
+        self.ctr += 1;
+        let a = if self.rng.chance(1, 10) { None } else { Some(self.rng.range(0, 9)) };
+        let p = payload(self.rng, self.ctr);
+        Some(R { key, u, a, p })
+    }
+    fn pred(&mut self, single: bool) -> Pred {
+        let r = self.rng.below(100);
+        if self.rows.is_empty() {
+            return Pred::Key(self.rng.range(1, self.key_max as i64) as u32);
+        }
+        let row = self.rng.pick(&self.rows).clone();
+        if r < 60 || (single && r < 88) {
+            Pred::Key(row.key)
+        } else if single || r < 70 {
+            Pred::U(row.u)
+        } else if r < 90 {
+            match row.a {
+                Some(a) => Pred::A(a),
+                None => Pred::Key(row.key),
+            }
+        } else if r < 95 {
+            Pred::All
+        } else {
+            Pred::Key(self.rng.range(1, self.key_max as i64) as u32)
+        }
+    }
+    fn op(&mut self, in_txn: bool) -> Op {
+        loop {
+            let r = self.rng.below(100);
+            let op = if r < 30 || self.rows.len() < 2 {
+                let n = if self.rng.chance(1, 3) { self.rng.usize(2, 4) } else { 1 };
+                let mut v: Vec<R> = vec![];
+                for _ in 0..n {
+                    let grave = in_txn && self.rng.chance(1, 3);
+                    if let Some(row) = self.new_row(grave) {
+                        if !v.iter().any(|x| x.key == row.key || x.u == row.u) {
+                            v.push(row);
+                        }
+                    }
+                }
+                if v.is_empty() {
+                    continue;
+                }
+                Op::Insert(v)
+            } else if r < 45 {
+                let v = if self.rng.chance(1, 8) { None } else { Some(self.rng.range(0, 9)) };
+                Op::SetA(self.pred(false), v)
+            } else if r < 50 {
+                Op::IncA(self.pred(false))
+            } else if r < 63 {
+                self.ctr += 1;
+                let p = payload(self.rng, self.ctr);
+                Op::SetP(self.pred(false), p)
+            } else if r < 70 {
+                let p = self.pred(true);
+                let grave = in_txn && self.rng.chance(1, 3);
+                let u = self.fresh_u(grave);
+                Op::SetU(p, u)
+            } else if r < 76 {
+                let p = self.pred(true);
+                let grave = in_txn && self.rng.chance(1, 3);
+                match self.fresh_key(grave) {
+                    Some(k) => Op::SetKey(p, k),
+                    None => continue,
+                }
+            } else if r < 97 {
+                Op::Delete(self.pred(false))
+            } else {
+                // deliberately failing statement: duplicate key (PK tables) / duplicate u
+                let victim = self.rng.pick(&self.rows).clone();
+                self.ctr += 1;
+                Op::Insert(vec![R { key: victim.key, u: victim.u, a: Some(1), p: Some(pad(self.ctr, 5)) }])
+            };
+            // the generator's own bookkeeping (not an oracle): duplicates are not applied
+            if let Op::Insert(v) = &op {
+                if v.iter().any(|x| self.rows.iter().any(|r| r.key == x.key || r.u == x.u)) {
+                    return op;
+                }
+            }
+            op.apply(&mut self.rows);
+            return op;
+        }
+    }
+}
+
+#[derive(Clone, Copy, PartialEq, Eq, Debug)]
+enum Shape {
+    Small,
+    /// a few hundred rows with ~200-byte values inserted inside the transaction (root split in the txn)
+    BulkInTxn,
+    /// the table is already several pages deep (root moved) before BEGIN
+    BulkPrefix,
+}
+
+fn gen_case(seed: u64, shape: Shape) -> Case {
+    let mut rng = Rng::new(seed);
+    let key = match rng.below(10) {
+        0..=3 => KeyKind::IntPk,
+        4..=6 => KeyKind::TextPk,
+        _ => KeyKind::NoPk,
+    };
+    let spec = Spec { key, uniq: rng.chance(1, 2), idx_a: rng.chance(3, 5) };
+    let key_max = if shape == Shape::Small { 40 } else { 900 };
+    let prefix_in_txn = rng.chance(1, 5);
+    let mut steps = vec![];
+    let mut g = G { rng: &mut rng, key_max, rows: vec![], at_begin: vec![], ctr: 0 };
+    let bulk = |g: &mut G, steps: &mut Vec<Step>| {
+        let total = g.rng.usize(260, 420);
+        let mut done = 0;
+        while done < total {
+            let mut v: Vec<R> = vec![];
+            for _ in 0..25 {
+                if let Some(key) = g.fresh_key(false) {
+                    if v.iter().any(|x: &R| x.key == key) {
+                        continue;
+                    }
+                    g.ctr += 1;
+                    let u = 1000 + g.ctr as i64;
+                    let len = g.rng.usize(160, 260);
+                    v.push(R { key, u, a: Some(g.rng.range(0, 9)), p: Some(pad(g.ctr, len)) });
+                }
+            }
+            done += v.len().max(1);
+            if !v.is_empty() {
+                let op = Op::Insert(v);
+                op.apply(&mut g.rows);
+                steps.push(Step::Op(op));
+            }
+        }
+    };
+    // prefix
+    if shape == Shape::BulkPrefix {
+        bulk(&mut g, &mut steps);
+    }
+    let npre = g.rng.usize(2, 9);
+    for _ in 0..npre {
+        let op = g.op(false);
+        steps.push(Step::Op(op));
+    }
+    g.at_begin = g.rows.clone();
+    steps.push(Step::Begin);
+    if shape == Shape::BulkInTxn {
+        if g.rng.chance(1, 3) {
+            steps.push(Step::Savepoint(0));
+        }
+        bulk(&mut g, &mut steps);
+    }
+    // body
+    let mut open: Vec<(u32, Vec<R>)> = vec![];
+    if let Some(Step::Savepoint(0)) = steps.iter().find(|s| matches!(s, Step::Savepoint(_))) {
+        open.push((0, g.at_begin.clone()));
+    }
+    let mut next_sp = 1u32;
+    let nbody = g.rng.usize(1, 12);
+    let mut touched_keys: BTreeSet<u32> = BTreeSet::new();
+    let mut touched_us: BTreeSet<i64> = BTreeSet::new();
+    for _ in 0..nbody {
+        let r = g.rng.below(100);
+        if r < 14 && open.len() < 3 {
+            open.push((next_sp, g.rows.clone()));
+            steps.push(Step::Savepoint(next_sp));
+            next_sp += 1;
+        } else if r < 26 && !open.is_empty() {
+            let i = g.rng.below(open.len() as u64) as usize;
+            g.rows = open[i].1.clone();
+            steps.push(Step::RollbackTo(open[i].0));
+            open.truncate(i + 1);
+        } else if r < 31 && !open.is_empty() {
+            // RELEASE destroys the savepoint and (standard SQL) all later ones: never referenced again
+            let i = g.rng.below(open.len() as u64) as usize;
+            steps.push(Step::Release(open[i].0));
+            open.truncate(i);
+        } else {
+            let op = g.op(true);
+            steps.push(Step::Op(op));
+        }
+    }
+    for s in &steps {
+        if let Step::Op(op) = s {
+            match op {
+                Op::Insert(v) => {
+                    for r in v.iter().take(6) {
+                        touched_keys.insert(r.key);
+                        touched_us.insert(r.u);
+                    }
+                }
+                Op::SetKey(Pred::Key(a), b) => {
+                    touched_keys.insert(*a);
+                    touched_keys.insert(*b);
+                }
+                Op::SetU(p, u) => {
+                    touched_us.insert(*u);
+                    if let Pred::U(x) = p {
+                        touched_us.insert(*x);
+                    }
+                }
+                Op::SetA(Pred::Key(k), _) | Op::IncA(Pred::Key(k)) | Op::SetP(Pred::Key(k), _) | Op::Delete(Pred::Key(k)) => {
+                    touched_keys.insert(*k);
+                }
+                _ => {}
+            }
+        }
+    }
+    let end = match g.rng.below(100) {
+        0..=64 => Step::Rollback,
+        65..=78 => Step::DropReopen,
+        79..=92 => Step::DropClone,
+        _ => Step::Commit,
+    };
+    steps.push(end);
+    // probe sets (fixed per case so that every observation asks the same questions)
+    let at_begin = g.at_begin.clone();
+    let now = g.rows.clone();
+    let mut probe_keys: Vec<u32> = touched_keys.iter().copied().collect();
+    let mut probe_us: Vec<i64> = touched_us.iter().copied().collect();
+    for r in at_begin.iter().chain(now.iter()) {
+        if probe_keys.len() < 48 && !probe_keys.contains(&r.key) {
+            probe_keys.push(r.key);
+        }
+        if probe_us.len() < 48 && !probe_us.contains(&r.u) {
+            probe_us.push(r.u);
+        }
+    }
+    for _ in 0..4 {
+        let k = g.rng.range(1, key_max as i64) as u32;
+        if !probe_keys.contains(&k) {
+            probe_keys.push(k);
+        }
+    }
+    probe_keys.truncate(64);
+    probe_us.truncate(64);
+    // later inserts: keys/u values that existed at BEGIN (must be rejected where a PK/UNIQUE exists)
+    // and ones that did not (must be accepted), preferring those the transaction touched
+    let mut later = vec![];
+    let existed = |k: u32| at_begin.iter().any(|r| r.key == k);
+    let mut cand_exist: Vec<u32> = touched_keys.iter().copied().filter(|k| existed(*k)).collect();
+    let mut cand_absent: Vec<u32> = touched_keys.iter().copied().filter(|k| !existed(*k)).collect();
+    g.rng.shuffle(&mut cand_exist);
+    g.rng.shuffle(&mut cand_absent);
+    if let Some(r) = at_begin.first() {
+        cand_exist.push(r.key);
+    }
+    cand_absent.push(key_max + 7);
+    let mut n = 0u64;
+    let mut fresh_u = 5000i64;
+    let mut fresh_k = 5000u32;
+    let mut used: BTreeSet<u32> = BTreeSet::new();
+    for (i, k) in cand_absent.iter().take(3).chain(cand_exist.iter().take(3)).enumerate() {
+        if !used.insert(*k) {
+            continue;
+        }
+        n += 1;
+        fresh_u += 1;
+        later.push(R { key: *k, u: fresh_u, a: Some((i % 10) as i64), p: Some(pad(7000 + n, 9)) });
+    }
+    let uex = |u: i64| at_begin.iter().any(|r| r.u == u);
+    let mut us_exist: Vec<i64> = touched_us.iter().copied().filter(|u| uex(*u)).collect();
+    let mut us_absent: Vec<i64> = touched_us.iter().copied().filter(|u| !uex(*u)).collect();
+    g.rng.shuffle(&mut us_exist);
+    g.rng.shuffle(&mut us_absent);
+    let mut used_u: BTreeSet<i64> = BTreeSet::new();
+    for u in us_absent.iter().take(2).chain(us_exist.iter().take(2)) {
+        if !used_u.insert(*u) {
+            continue;
+        }
+        n += 1;
+        fresh_k += 1;
+        later.push(R { key: fresh_k, u: *u, a: Some(3), p: Some(pad(7000 + n, 9)) });
+    }
+    for r in &later {
+        if !probe_keys.contains(&r.key) {
+            probe_keys.push(r.key);
+        }
+        if !probe_us.contains(&r.u) {
+            probe_us.push(r.u);
+        }
+    }
+    Case { spec, prefix_in_txn, steps, probe_keys, probe_us, later }
+}
+
+// ------------------------------------------------------------------------------------ observation
+
+#[derive(Clone, Debug)]
+struct Lookup {
+    /// pk_int | pk_text | unique | secondary | scan_a | range_pk | range_a
+    class: &'static str,
+    sql: String,
+    res: Result<Vec<Row>, String>,
+}
+
+#[derive(Clone, Debug)]
+struct Obs {
+    dump: Result<Vec<Row>, String>,
+    count: Result<i64, String>,
+    lookups: Vec<Lookup>,
+}
+
+fn err_class(e: &str) -> String {
+    if is_panic(e) {
+        return format!("panic@{}", panic_tag(e));
+    }
+    e.split(|c: char| !c.is_ascii_alphabetic()).filter(|w| !w.is_empty()).take(6).collect::<Vec<_>>().join("_").to_lowercase()
+}
+
+struct H {
+    db: Option<turdb::Database>,
+    path: std::path::PathBuf,
+}
+
+impl H {
+    fn exec(&self, sql: &str) -> Result<usize, String> {
+        let db = self.db.as_ref().unwrap();
+        match catch(|| db.execute(sql)) {
+            Ok(Ok(r)) => Ok(match r {
+                turdb::ExecuteResult::Insert { rows_affected, .. } | turdb::ExecuteResult::Update { rows_affected, .. } | turdb::ExecuteResult::Delete { rows_affected, .. } => rows_affected,
+                _ => 0,
+            }),
+            Ok(Err(e)) => Err(format!("{:#}", e)),
+            Err(p) => Err(format!("PANIC: {}", p)),
+        }
+    }
+    fn query(&self, sql: &str) -> Result<Vec<Row>, String> {
+        let db = self.db.as_ref().unwrap();
+        match catch(|| db.query(sql)) {
+            Ok(Ok(rows)) => Ok(conv_rows(&rows)),
+            Ok(Err(e)) => Err(format!("{:#}", e)),
+            Err(p) => Err(format!("PANIC: {}", p)),
+        }
+    }
+    fn explain(&self, sql: &str) -> Option<String> {
+        let db = self.db.as_ref().unwrap();
+        match catch(|| db.execute(&format!("EXPLAIN {}", sql))) {
+            Ok(Ok(turdb::ExecuteResult::Explain { plan })) => Some(plan),
+            _ => None,
+        }
+    }
+    /// root page of table `t` as recorded in its file header (measured, for the signature)
+    fn table_root(&self) -> Option<u32> {
+        let p = self.path.join("root").join("t.tbd");
+        let bytes = std::fs::read(&p).ok()?;
+        turdb::storage::TableFileHeader::from_bytes(&bytes).ok().map(|h| h.root_page())
+    }
+}
+
+fn lookup_sqls(case: &Case) -> Vec<(&'static str, String)> {
+    let spec = &case.spec;
+    let mut out = vec![];
+    if let Some(c) = spec.key_col() {
+        let class = if spec.key == KeyKind::IntPk { "pk_int" } else { "pk_text" };
+        for k in &case.probe_keys {
+            out.push((class, format!("SELECT * FROM t WHERE {} = {}", c, spec.key_lit(*k))));
+        }
+        let mut ks = case.probe_keys.clone();
+        ks.sort();
+        if ks.len() >= 3 {
+            let (lo, hi) = (ks[ks.len() / 4], ks[3 * ks.len() / 4]);
+            out.push(("range_pk", format!("SELECT * FROM t WHERE {} >= {} AND {} <= {}", c, spec.key_lit(lo), c, spec.key_lit(hi))));
+        }
+    }
+    if spec.uniq {
+        for u in &case.probe_us {
+            out.push(("unique", format!("SELECT * FROM t WHERE u = {}", u)));
+        }
+    }
+    let class = if spec.idx_a { "secondary" } else { "scan_a" };
+    for a in 0..=10 {
+        out.push((class, format!("SELECT * FROM t WHERE a = {}", a)));
+    }
+    out.push((if spec.idx_a { "range_a" } else { "scan_a" }, "SELECT * FROM t WHERE a >= 3 AND a <= 6".to_string()));
+    out
+}
+
+fn observe(h: &H, case: &Case) -> Obs {
+    let dump = h.query("SELECT * FROM t");
+    let count = h.query("SELECT COUNT(*) FROM t").and_then(|r| match r.first().and_then(|r| r.first()) {
+        Some(V::Int(n)) => Ok(*n),
+        other => Err(format!("COUNT(*) returned {:?}", other)),
+    });
+    let lookups = lookup_sqls(case).into_iter().map(|(class, sql)| Lookup { class, res: h.query(&sql), sql }).collect();
+    Obs { dump, count, lookups }
+}
+
+#[derive(Clone, Debug)]
+struct Viol {
+    assertion: String,
+    cause: String,
+    detail: J,
+}
+
+fn diff_kind(d: &J) -> &'static str {
+    let m = d["missing"].as_array().map(|a| !a.is_empty()).unwrap_or(false);
+    let x = d["extra"].as_array().map(|a| !a.is_empty()).unwrap_or(false);
+    match (m, x) {
+        (true, false) => "rows_missing",
+        (false, true) => "rows_extra",
+        _ => "rows_changed",
+    }
+}
+
+/// for lookups: an answer that lacks expected rows is `rows_missing` (lost or misdirected index entry) even if
+/// it also contains a wrong row; only an answer with nothing but surplus rows is `rows_extra` (stale entry)
+fn lookup_diff_kind(d: &J) -> &'static str {
+    if d["missing"].as_array().map(|a| !a.is_empty()).unwrap_or(false) {
+        "rows_missing"
+    } else {
+        "rows_extra"
+    }
+}
+
+/// index class used in signatures: PK index and UNIQUE-column index are the same mechanism
+fn sig_class(class: &str) -> &str {
+    match class {
+        "pk_int" | "pk_text" | "unique" => "unique_index",
+        "secondary" => "secondary_index",
+        other => other,
+    }
+}
+
+/// differences between the snapshot's observation and the one after the rollback.
+/// Hierarchical, so that consequences are not reported as separate causes: table bag first; only when the
+/// bag is restored are COUNT(*) and the lookups (one violation per index class) compared.
+fn compare_obs(before: &Obs, after: &Obs, a_rows: &str, a_count: &str, a_lookup: &str) -> Vec<Viol> {
+    let mut out = vec![];
+    let (b, a) = match (&before.dump, &after.dump) {
+        (Ok(b), Ok(a)) => (b, a),
+        (Err(_), _) => return out, // the snapshot itself was unreadable: nothing to compare against
+        (Ok(_), Err(e)) => {
+            out.push(Viol { assertion: "readable_after_rollback".into(), cause: err_class(e), detail: json!({"sql": "SELECT * FROM t", "error": e}) });
+            return out;
+        }
+    };
+    if let Some(d) = bag_diff(a, b) {
+        out.push(Viol { assertion: a_rows.into(), cause: diff_kind(&d).into(), detail: json!({"diff": d, "got": rows_json_short(a), "want": rows_json_short(b)}) });
+        return out;
+    }
+    match (&before.count, &after.count) {
+        (Ok(x), Ok(y)) if x != y => out.push(Viol { assertion: a_count.into(), cause: if y > x { "count_too_high".into() } else { "count_too_low".into() }, detail: json!({"count_star_at_snapshot": x, "count_star_now": y, "rows_in_table": a.len()}) }),
+        (Ok(_), Err(e)) => out.push(Viol { assertion: "readable_after_rollback".into(), cause: err_class(e), detail: json!({"sql": "SELECT COUNT(*) FROM t", "error": e}) }),
+        _ => {}
+    }
+    let mut seen: BTreeSet<String> = BTreeSet::new();
+    for (lb, la) in before.lookups.iter().zip(after.lookups.iter()) {
+        match (&lb.res, &la.res) {
+            (Ok(x), Ok(y)) => {
+                if let Some(d) = bag_diff(y, x) {
+                    let cause = format!("{}/{}", sig_class(la.class), lookup_diff_kind(&d));
+                    if seen.insert(cause.clone()) {
+                        out.push(Viol { assertion: a_lookup.into(), cause, detail: json!({"sql": la.sql, "index": la.class, "diff": d, "got": rows_json_short(y), "want": rows_json_short(x)}) });
+                    }
+                }
+            }
+            (Ok(_), Err(e)) => {
+                let cause = err_class(e);
+                if seen.insert(cause.clone()) {
+                    out.push(Viol { assertion: "readable_after_rollback".into(), cause, detail: json!({"sql": la.sql, "error": e}) });
+                }
+            }
+            _ => {}
+        }
+    }
+    out
+}
+
+fn rows_json_short(rows: &[Row]) -> J {
+    let short: Vec<Row> = rows
+        .iter()
+        .take(8)
+        .map(|r| r.iter().map(|v| if let V::Text(s) = v { if s.len() > 24 { V::Text(format!("{}…({}B)", &s[..16], s.len())) } else { v.clone() } } else { v.clone() }).collect())
+        .collect();
+    json!({"n": rows.len(), "first": rows_json(&short, 8)})
+}
+
+// -------------------------------------------------------------------------------------- execution
+
+#[derive(Default, Debug)]
+struct Out {
+    viols: Vec<Viol>,
+    /// index of the step at which the violations were observed
+    at_step: usize,
+    /// kind of comparison: rollback | rollback_to | drop_reopen | drop_clone | later
+    via: &'static str,
+    /// op kinds (and failed statements) between the snapshot and the rollback that was judged
+    undone: BTreeSet<String>,
+    root_at_rollback: Option<u32>,
+    rollbacks_judged: u64,
+    savepoint_rollbacks: u64,
+    max_depth: usize,
+    stmts: u64,
+    failed_in_txn: u64,
+    failed_kinds: BTreeSet<String>,
+    aborted: Option<String>,
+    later_judged: u64,
+    later_not_judged: u64,
+    control_diverged: bool,
+    index_plans: BTreeMap<String, bool>,
+    undone_rows_measured: u64,
+}
+
+fn open_handle(path: &Path, create: bool) -> Result<H, String> {
+    let r = catch(|| if create { turdb::Database::create(path) } else { turdb::Database::open(path) });
+    match r {
+        Ok(Ok(db)) => Ok(H { db: Some(db), path: path.to_path_buf() }),
+        Ok(Err(e)) => Err(format!("{:#}", e)),
+        Err(p) => Err(format!("PANIC: {}", p)),
+    }
+}
+
+fn undone_between(case: &Case, from: usize, to: usize, failed: &BTreeMap<usize, String>) -> BTreeSet<String> {
+    let mut s = BTreeSet::new();
+    for i in from..to {
+        if let Step::Op(op) = &case.steps[i] {
+            if op.sql(&case.spec).is_none() {
+                continue;
+            }
+            match failed.get(&i) {
+                Some(k) => s.insert(k.clone()),
+                None => s.insert(op.kind().to_string()),
+            };
+        }
+    }
+    s
+}
+
+/// run the prefix of a case (everything before BEGIN) on a fresh database
+fn run_prefix(h: &H, case: &Case, out: &mut Out) -> Result<usize, String> {
+    for s in case.spec.create_sql() {
+        h.exec(&s).map_err(|e| format!("setup `{}`: {}", s, e))?;
+    }
+    if case.prefix_in_txn {
+        h.exec("BEGIN").map_err(|e| format!("setup BEGIN: {}", e))?;
+    }
+    let mut i = 0;
+    while i < case.steps.len() && case.steps[i] != Step::Begin {
+        if let Step::Op(op) = &case.steps[i] {
+            if let Some(sql) = op.sql(&case.spec) {
+                out.stmts += 1;
+                if let Err(e) = h.exec(&sql) {
+                    if is_panic(&e) {
+                        return Err(format!("prefix statement panicked: {}", e));
+                    }
+                }
+            }
+        }
+        i += 1;
+    }
+    if case.prefix_in_txn {
+        h.exec("COMMIT").map_err(|e| format!("setup COMMIT: {}", e))?;
+    }
+    Ok(i)
+}
+
+fn run_case(scratch: &Scratch, tag: &str, case: &Case) -> Out {
+    let mut out = Out::default();
+    let path = scratch.dir(tag);
+    let mut h = match open_handle(&path, true) {
+        Ok(h) => h,
+        Err(e) => {
+            out.aborted = Some(format!("create: {}", e));
+            return out;
+        }
+    };
+    let begin_at = match run_prefix(&h, case, &mut out) {
+        Ok(i) => i,
+        Err(e) => {
+            out.aborted = Some(e);
+            return out;
+        }
+    };
+    if begin_at >= case.steps.len() {
+        return out;
+    }
+    // which lookups really take an index path (measured through EXPLAIN, once per class)
+    {
+        let mut seen = BTreeSet::new();
+        for (class, sql) in lookup_sqls(case) {
+            if seen.insert(class) {
+                if let Some(plan) = h.explain(&sql) {
+                    out.index_plans.insert(class.to_string(), plan.contains("IndexScan") || plan.contains("Index"));
+                }
+            }
+        }
+    }
+    let obs0 = observe(&h, case);
+    let mut sp_obs: BTreeMap<u32, (usize, Obs)> = BTreeMap::new();
+    let mut failed: BTreeMap<usize, String> = BTreeMap::new();
+    let mut depth = 0usize;
+    let mut full_rollback_done = false;
+    for i in begin_at..case.steps.len() {
+        let st = &case.steps[i];
+        match st {
+            Step::Begin => {
+                if let Err(e) = h.exec("BEGIN") {
+                    out.aborted = Some(format!("BEGIN: {}", e));
+                    return out;
+                }
+            }
+            Step::Op(op) => {
+                let sql = match op.sql(&case.spec) {
+                    Some(s) => s,
+                    None => continue,
+                };
+                out.stmts += 1;
+                if let Err(e) = h.exec(&sql) {
+                    // a failing statement inside the transaction is not a rollback defect; it is remembered so
+                    // that a later violation names it (separate signature) and the shrinker tries to drop it
+                    out.failed_in_txn += 1;
+                    let k = format!("{}_failed", op.kind());
+                    out.failed_kinds.insert(k.clone());
+                    failed.insert(i, k);
+                    if is_panic(&e) {
+                        out.aborted = Some(format!("statement panicked inside the transaction ({}): not judged", panic_tag(&e)));
+                        return out;
+                    }
+                }
+            }
+            Step::Savepoint(id) => {
+                if let Err(e) = h.exec(&format!("SAVEPOINT sp{}", id)) {
+                    out.viols.push(Viol { assertion: "txn_control_accepted".into(), cause: format!("savepoint:{}", err_class(&e)), detail: json!({"error": e}) });
+                    out.at_step = i;
+                    out.via = "savepoint";
+                    return out;
+                }
+                depth += 1;
+                out.max_depth = out.max_depth.max(depth);
+                sp_obs.insert(*id, (i, observe(&h, case)));
+            }
+            Step::Release(id) => {
+                if let Err(e) = h.exec(&format!("RELEASE sp{}", id)) {
+                    out.viols.push(Viol { assertion: "txn_control_accepted".into(), cause: format!("release:{}", err_class(&e)), detail: json!({"error": e}) });
+                    out.at_step = i;
+                    out.via = "release";
+                    return out;
+                }
+                depth = depth.saturating_sub(1);
+            }
+            Step::RollbackTo(id) => {
+                let (from, snap) = match sp_obs.get(id) {
+                    Some(x) => (x.0, x.1.clone()),
+                    None => continue, // savepoint removed by the shrinker
+                };
+                out.root_at_rollback = h.table_root();
+                out.via = "rollback_to";
+                out.at_step = i;
+                out.undone = undone_between(case, from, i, &failed);
+                if let Err(e) = h.exec(&format!("ROLLBACK TO sp{}", id)) {
+                    out.viols.push(Viol { assertion: "rollback_succeeds".into(), cause: format!("rollback_to:{}", err_class(&e)), detail: json!({"error": e}) });
+                    return out;
+                }
+                out.rollbacks_judged += 1;
+                out.savepoint_rollbacks += 1;
+                let now = observe(&h, case);
+                out.viols = compare_obs(&snap, &now, "rows_restored", "count_star_restored", "index_lookup_restored");
+                if !out.viols.is_empty() {
+                    return out;
+                }
+            }
+            Step::Rollback | Step::DropReopen | Step::DropClone => {
+                out.root_at_rollback = h.table_root();
+                out.at_step = i;
+                out.undone = undone_between(case, begin_at, i, &failed);
+                match st {
+                    Step::Rollback => {
+                        out.via = "rollback";
+                        if let Err(e) = h.exec("ROLLBACK") {
+                            out.viols.push(Viol { assertion: "rollback_succeeds".into(), cause: format!("rollback:{}", err_class(&e)), detail: json!({"error": e}) });
+                            return out;
+                        }
+                    }
+                    Step::DropReopen => {
+                        out.via = "drop_reopen";
+                        let db = h.db.take();
+                        if let Err(p) = catch(move || drop(db)) {
+                            out.viols.push(Viol { assertion: "rollback_succeeds".into(), cause: format!("drop_handle:panic@{}", panic_tag(&format!("PANIC: {}", p))), detail: json!({"panic": p}) });
+                            return out;
+                        }
+                        match open_handle(&path, false) {
+                            Ok(n) => h = n,
+                            Err(e) => {
+                                out.viols.push(Viol { assertion: "readable_after_rollback".into(), cause: format!("reopen:{}", err_class(&e)), detail: json!({"error": e}) });
+                                return out;
+                            }
+                        }
+                    }
+                    _ => {
+                        out.via = "drop_clone";
+                        let db = h.db.take().unwrap();
+                        let c = db.clone();
+                        if let Err(p) = catch(move || drop(db)) {
+                            out.viols.push(Viol { assertion: "rollback_succeeds".into(), cause: format!("drop_handle:panic@{}", panic_tag(&format!("PANIC: {}", p))), detail: json!({"panic": p}) });
+                            return out;
+                        }
+                        h.db = Some(c);
+                    }
+                }
+                out.rollbacks_judged += 1;
+                let now = observe(&h, case);
+                out.viols = compare_obs(&obs0, &now, "rows_restored", "count_star_restored", "index_lookup_restored");
+                if !out.viols.is_empty() {
+                    return out;
+                }
+                full_rollback_done = true;
+            }
+            Step::Commit => {
+                let _ = h.exec("COMMIT");
+            }
+        }
+    }
+    if !full_rollback_done || case.later.is_empty() {
+        return out;
+    }
+    // ---- later statements: the rolled-back database must behave like one that never ran the transaction
+    let reopen = matches!(case.steps.last(), Some(Step::DropReopen));
+    let cpath = scratch.dir(&format!("{}-ctl", tag));
+    let mut ctl = match open_handle(&cpath, true) {
+        Ok(c) => c,
+        Err(_) => return out,
+    };
+    let mut dummy = Out::default();
+    if run_prefix(&ctl, case, &mut dummy).is_err() {
+        return out;
+    }
+    if reopen {
+        let db = ctl.db.take();
+        drop(db);
+        match open_handle(&cpath, false) {
+            Ok(c) => ctl = c,
+            Err(_) => return out,
+        }
+    }
+    let cobs = observe(&ctl, case);
+    if !compare_obs(&obs0, &cobs, "r", "c", "l").is_empty() || !compare_obs(&cobs, &obs0, "r", "c", "l").is_empty() {
+        out.control_diverged = true;
+        return out;
+    }
+    out.via = "later";
+    out.at_step = case.steps.len();
+    let spec = &case.spec;
+    let dump0: Vec<Row> = obs0.dump.clone().unwrap_or_default();
+    let mut same_outcomes = true;
+    for r in &case.later {
+        let sql = format!("INSERT INTO t VALUES {}", row_sql(spec, r));
+        let key_exists = spec.key != KeyKind::NoPk && dump0.iter().any(|row| row.first().map(|v| v.key(false) == spec.key_val(r.key).key(false)).unwrap_or(false));
+        let u_exists = spec.u_pos().map(|p| dump0.iter().any(|row| matches!(row.get(p), Some(V::Int(x)) if *x == r.u))).unwrap_or(false);
+        let expect_reject = key_exists || u_exists;
+        let c = ctl.exec(&sql);
+        let t = h.exec(&sql);
+        if c.is_err() != expect_reject {
+            // TurDB does not enforce the constraint the way the snapshot predicts even without a transaction:
+            // some other property's problem, not judged here
+            out.later_not_judged += 1;
+            if c.is_err() != t.is_err() {
+                same_outcomes = false;
+            }
+            continue;
+        }
+        out.later_judged += 1;
+        if t.is_err() != expect_reject {
+            let cause = match &t {
+                Ok(_) => "key_present_at_begin_accepted".to_string(),
+                Err(e) => format!("key_absent_at_begin_rejected:{}", err_class(e)),
+            };
+            out.viols.push(Viol { assertion: "later_insert_uniqueness".into(), cause, detail: json!({"sql": sql, "existed_at_begin": expect_reject, "rolled_back_db": format!("{:?}", t), "control_db": format!("{:?}", c)}) });
+            return out;
+        }
+    }
+    if same_outcomes {
+        let tobs = observe(&h, case);
+        let cobs = observe(&ctl, case);
+        out.viols = compare_obs(&cobs, &tobs, "later_rows_match_control", "later_count_star_matches_control", "later_index_lookup_matches_control");
+    }
+    out
+}
+
+// -------------------------------------------------------------------------------------- shrinking
+
+fn remove_step(case: &Case, i: usize) -> Option<Case> {
+    let mut c = case.clone();
+    let st = c.steps[i].clone();
+    match st {
+        Step::Begin => return None,
+        Step::Rollback | Step::Commit | Step::DropReopen | Step::DropClone => return None,
+        Step::Savepoint(id) => {
+            c.steps.remove(i);
+            c.steps.retain(|s| !matches!(s, Step::RollbackTo(x) | Step::Release(x) if *x == id));
+        }
+        _ => {
+            c.steps.remove(i);
+        }
+    }
+    Some(c)
+}
+
+fn shrink(scratch: &Scratch, case: &Case, assertion: &str, cause: &str, budget: usize) -> (Case, Out) {
+    let mut n = 0usize;
+    let mut cur = case.clone();
+    let mut cur_out = run_case(scratch, "shrink", &cur);
+    let base_failed = cur_out.failed_in_txn;
+    let fires = |c: &Case, n: &mut usize| -> Option<Out> {
+        *n += 1;
+        let o = run_case(scratch, "shrink", c);
+        if o.failed_in_txn <= base_failed && o.viols.iter().any(|v| v.assertion == assertion && v.cause == cause) {
+            Some(o)
+        } else {
+            None
+        }
+    };
+    if !cur_out.viols.iter().any(|v| v.assertion == assertion && v.cause == cause) {
+        return (cur, cur_out);
+    }
+    // everything after the step at which the violation showed is irrelevant (except the later inserts)
+    if cur_out.via != "later" && cur_out.at_step + 1 < cur.steps.len() {
+        let mut c = cur.clone();
+        c.steps.truncate(cur_out.at_step + 1);
+        if let Some(o) = fires(&c, &mut n) {
+            cur = c;
+            cur_out = o;
+        }
+    }
+    // the simplest way of ending the transaction
+    if matches!(cur.steps.last(), Some(Step::DropReopen | Step::DropClone)) {
+        let mut c = cur.clone();
+        *c.steps.last_mut().unwrap() = Step::Rollback;
+        if let Some(o) = fires(&c, &mut n) {
+            cur = c;
+            cur_out = o;
+        }
+    }
+    if cur.prefix_in_txn {
+        let mut c = cur.clone();
+        c.prefix_in_txn = false;
+        if let Some(o) = fires(&c, &mut n) {
+            cur = c;
+            cur_out = o;
+        }
+    }
+    // a ROLLBACK TO that can be replaced by a plain ROLLBACK
+    if cur_out.via == "rollback_to" {
+        let mut c = cur.clone();
+        c.steps.retain(|s| !matches!(s, Step::Savepoint(_) | Step::RollbackTo(_) | Step::Release(_)));
+        c.steps.push(Step::Rollback);
+        if let Some(o) = fires(&c, &mut n) {
+            cur = c;
+            cur_out = o;
+        }
+    }
+    // table features
+    for f in 0..4 {
+        let mut c = cur.clone();
+        match f {
+            0 if c.spec.uniq => c.spec.uniq = false,
+            1 if c.spec.idx_a => c.spec.idx_a = false,
+            2 if c.spec.key != KeyKind::NoPk => c.spec.key = KeyKind::NoPk,
+            3 if c.spec.key == KeyKind::TextPk => c.spec.key = KeyKind::IntPk,
+            _ => continue,
+        }
+        if n < budget {
+            if let Some(o) = fires(&c, &mut n) {
+                cur = c;
+                cur_out = o;
+            }
+        }
+    }
+    // ddmin over the steps
+    let mut chunk = (cur.steps.len() / 2).max(1);
+    loop {
+        let mut i = 0;
+        while i < cur.steps.len() && n < budget {
+            let mut c = cur.clone();
+            let mut removed = false;
+            // remove `chunk` removable steps starting at i (from the back so that indices stay valid)
+            let end = (i + chunk).min(c.steps.len());
+            for j in (i..end).rev() {
+                if j < c.steps.len() {
+                    if let Some(nc) = remove_step(&c, j) {
+                        c = nc;
+                        removed = true;
+                    }
+                }
+            }
+            if removed {
+                if let Some(o) = fires(&c, &mut n) {
+                    cur = c;
+                    cur_out = o;
+                    continue;
+                }
+            }
+            i += chunk;
+        }
+        if chunk == 1 || n >= budget {
+            break;
+        }
+        chunk /= 2;
+    }
+    // fewer rows per INSERT, shorter later-insert list
+    for i in 0..cur.steps.len() {
+        loop {
+            let rows = match &cur.steps[i] {
+                Step::Op(Op::Insert(v)) if v.len() > 1 => v.clone(),
+                _ => break,
+            };
+            if n >= budget {
+                break;
+            }
+            let mut c = cur.clone();
+            c.steps[i] = Step::Op(Op::Insert(rows[..rows.len() / 2].to_vec()));
+            if let Some(o) = fires(&c, &mut n) {
+                cur = c;
+                cur_out = o;
+                continue;
+            }
+            let mut c = cur.clone();
+            c.steps[i] = Step::Op(Op::Insert(rows[rows.len() / 2..].to_vec()));
+            if let Some(o) = fires(&c, &mut n) {
+                cur = c;
+                cur_out = o;
+                continue;
+            }
+            break;
+        }
+    }
+    if cur_out.via == "later" {
+        let mut i = 0;
+        while i < cur.later.len() && n < budget {
+            let mut c = cur.clone();
+            c.later.remove(i);
+            if let Some(o) = fires(&c, &mut n) {
+                cur = c;
+                cur_out = o;
+            } else {
+                i += 1;
+            }
+        }
+    }
+    // table features once more (statements that needed a feature may be gone now)
+    for f in 0..4 {
+        let mut c = cur.clone();
+        match f {
+            0 if c.spec.uniq => c.spec.uniq = false,
+            1 if c.spec.idx_a => c.spec.idx_a = false,
+            2 if c.spec.key != KeyKind::NoPk => c.spec.key = KeyKind::NoPk,
+            3 if c.spec.key == KeyKind::TextPk => c.spec.key = KeyKind::IntPk,
+            _ => continue,
+        }
+        if n < budget + 8 {
+            if let Some(o) = fires(&c, &mut n) {
+                cur = c;
+                cur_out = o;
+            }
+        }
+    }
+    (cur, cur_out)
+}
+
+fn signature(assertion: &str, cause: &str, case: &Case, out: &Out) -> String {
+    let undone: Vec<String> = if out.via == "later" {
+        let begin = case.steps.iter().position(|s| *s == Step::Begin).unwrap_or(0);
+        undone_between(case, begin, case.steps.len(), &BTreeMap::new()).into_iter().chain(out.failed_kinds.iter().cloned()).collect::<BTreeSet<_>>().into_iter().collect()
+    } else {
+        out.undone.iter().cloned().collect()
+    };
+    let via = if out.via == "later" {
+        match case.steps.last() {
+            Some(Step::DropReopen) => "later_after_drop_reopen",
+            Some(Step::DropClone) => "later_after_drop_clone",
+            _ => "later_after_rollback",
+        }
+    } else {
+        out.via
+    };
+    let root = match out.root_at_rollback {
+        Some(r) if r != 1 => "+root_moved",
+        _ => "",
+    };
+    let pre = case.pre_kinds();
+    let pre = if pre.is_empty() { String::new() } else { format!("/pre:{}", pre.into_iter().collect::<Vec<_>>().join("+")) };
+    format!("C07/{}/undo:{}/{}/{}{}/{}{}", assertion, if undone.is_empty() { "nothing".to_string() } else { undone.join("+") }, cause, case.spec.traits(), root, via, pre)
+}
+
+// ---------------------------------------------------------------------------- scripted scenarios
+
+/// Small fixed scenarios through API paths the generator does not reach (prepared statements executed
+/// repeatedly = cached plans, two tables in one transaction, composite index). Same oracle: the
+/// observation queries before BEGIN and after ROLLBACK must agree; a failing body statement => not judged.
+fn scripted(scratch: &Scratch, ctx: &mut Ctx) {
+    use turdb::OwnedValue as OV;
+    type Body = fn(&turdb::Database) -> Result<(), String>;
+    fn e<T>(r: eyre::Result<T>) -> Result<(), String> {
+        r.map(|_| ()).map_err(|e| format!("{:#}", e))
+    }
+    let scenarios: Vec<(&str, Vec<&str>, Body, Vec<&str>)> = vec![
+        (
+            "prepared_insert_repeated",
+            vec!["CREATE TABLE t (id BIGINT PRIMARY KEY, a BIGINT, b TEXT)", "CREATE INDEX ix_a ON t (a)", "INSERT INTO t VALUES (1, 10, 'one'), (2, 20, 'two')"],
+            |db| {
+                let st = db.prepare("INSERT INTO t VALUES (?, ?, ?)").map_err(|e| format!("{:#}", e))?;
+                for i in 10..14i64 {
+                    e(st.bind(OV::Int(i)).bind(OV::Int(i * 10)).bind(OV::Text(format!("r{}", i))).execute(db))?;
+                }
+                Ok(())
+            },
+            vec!["SELECT * FROM t", "SELECT COUNT(*) FROM t", "SELECT * FROM t WHERE id = 11", "SELECT * FROM t WHERE a = 120"],
+        ),
+        (
+            "prepared_update_repeated",
+            vec!["CREATE TABLE t (id BIGINT PRIMARY KEY, a BIGINT, b TEXT)", "CREATE INDEX ix_a ON t (a)", "INSERT INTO t VALUES (1, 10, 'one'), (2, 20, 'two'), (3, 30, 'three')"],
+            |db| {
+                let st = db.prepare("UPDATE t SET a = ? WHERE id = ?").map_err(|e| format!("{:#}", e))?;
+                for i in 1..4i64 {
+                    e(st.bind(OV::Int(100 + i)).bind(OV::Int(i)).execute(db))?;
+                }
+                Ok(())
+            },
+            vec!["SELECT * FROM t", "SELECT COUNT(*) FROM t", "SELECT * FROM t WHERE a = 20", "SELECT * FROM t WHERE a = 102"],
+        ),
+        (
+            "prepared_delete_repeated",
+            vec!["CREATE TABLE t (id BIGINT PRIMARY KEY, a BIGINT, b TEXT)", "INSERT INTO t VALUES (1, 10, 'one'), (2, 20, 'two'), (3, 30, 'three')"],
+            |db| {
+                let st = db.prepare("DELETE FROM t WHERE id = ?").map_err(|e| format!("{:#}", e))?;
+                for i in 1..3i64 {
+                    e(st.bind(OV::Int(i)).execute(db))?;
+                }
+                Ok(())
+            },
+            vec!["SELECT * FROM t", "SELECT COUNT(*) FROM t", "SELECT * FROM t WHERE id = 2"],
+        ),
+        (
+            "two_tables_one_txn",
+            vec!["CREATE TABLE t (id BIGINT PRIMARY KEY, a BIGINT)", "CREATE TABLE s (id BIGINT PRIMARY KEY, b TEXT)", "INSERT INTO t VALUES (1, 1), (2, 2)", "INSERT INTO s VALUES (1, 'x'), (2, 'y')"],
+            |db| {
+                e(db.execute("INSERT INTO t VALUES (3, 3)"))?;
+                e(db.execute("UPDATE s SET b = 'changed' WHERE id = 1"))?;
+                e(db.execute("DELETE FROM t WHERE id = 1"))?;
+                e(db.execute("INSERT INTO s VALUES (3, 'z')"))
+            },
+            vec!["SELECT * FROM t", "SELECT * FROM s", "SELECT COUNT(*) FROM t", "SELECT COUNT(*) FROM s", "SELECT * FROM t WHERE id = 1", "SELECT * FROM s WHERE id = 3"],
+        ),
+        (
+            "composite_index",
+            vec!["CREATE TABLE t (id BIGINT PRIMARY KEY, a BIGINT, b TEXT)", "CREATE INDEX ix_ab ON t (a, b)", "INSERT INTO t VALUES (1, 1, 'x'), (2, 1, 'y'), (3, 2, 'x')"],
+            |db| {
+                e(db.execute("UPDATE t SET b = 'q' WHERE id = 1"))?;
+                e(db.execute("DELETE FROM t WHERE id = 2"))?;
+                e(db.execute("INSERT INTO t VALUES (4, 1, 'x')"))
+            },
+            vec!["SELECT * FROM t", "SELECT COUNT(*) FROM t", "SELECT * FROM t WHERE a = 1 AND b = 'x'", "SELECT * FROM t WHERE a = 1 AND b = 'y'", "SELECT * FROM t WHERE a = 1"],
+        ),
+    ];
+    for (name, setup, body, observe) in scenarios {
+        ctx.eval();
+        let path = scratch.dir(&format!("script-{}", name));
+        let h = match open_handle(&path, true) {
+            Ok(h) => h,
+            Err(_) => continue,
+        };
+        if setup.iter().any(|s| h.exec(s).is_err()) {
+            ctx.count("scripted_setup_failed_not_judged", 1);
+            continue;
+        }
+        let before: Vec<Result<Vec<Row>, String>> = observe.iter().map(|q| h.query(q)).collect();
+        if h.exec("BEGIN").is_err() {
+            continue;
+        }
+        let db = h.db.as_ref().unwrap();
+        match catch(|| body(db)) {
+            Ok(Ok(())) => {}
+            Ok(Err(_)) | Err(_) => {
+                ctx.count(&format!("scripted_body_statement_failed_not_judged:{}", name), 1);
+                let _ = h.exec("ROLLBACK");
+                continue;
+            }
+        }
+        if let Err(e) = h.exec("ROLLBACK") {
+            ctx.violation("rollback_succeeds", &format!("C07/rollback_succeeds/scripted:{}/{}", name, err_class(&e)), json!({"error": e}));
+            continue;
+        }
+        ctx.nontrivial(fnv(name.as_bytes()));
+        ctx.count("scripted_scenarios_judged", 1);
+        for (q, b) in observe.iter().zip(before.iter()) {
+            let a = h.query(q);
+            let differs = match (b, &a) {
+                (Ok(x), Ok(y)) => bag_diff(y, x).map(|d| json!({"diff": d, "got": rows_json(y, 8), "want": rows_json(x, 8)})),
+                (Ok(_), Err(e)) => Some(json!({"error": e})),
+                _ => None,
+            };
+            if let Some(d) = differs {
+                let kind = if q.contains("COUNT(*)") {
+                    "count_star"
+                } else if q.contains("WHERE") {
+                    "index_lookup"
+                } else {
+                    "rows"
+                };
+                ctx.violation("scripted_rollback_restores", &format!("C07/scripted_rollback_restores/{}/{}", name, kind), json!({"scenario": name, "setup": setup, "query": q, "detail": d}));
+                break;
+            }
+        }
+    }
+}
+
+// ----------------------------------------------------------------------------------------- matrix
+
+/// One directed minimal case: a fixed 6-row table (optionally on top of a few hundred rows, so that the
+/// B-tree root has moved off page 1), BEGIN, one statement of kind `op`, and one way of rolling back.
+fn matrix_case(spec: Spec, op: &str, via: &str, deep: bool) -> Option<Case> {
+    let mut steps = vec![];
+    let mut ctr = 0u64;
+    if deep {
+        let mut key = 100u32;
+        for _ in 0..13 {
+            let mut v = vec![];
+            for _ in 0..25 {
+                ctr += 1;
+                key += 1;
+                v.push(R { key, u: 1000 + key as i64, a: Some((key % 10) as i64), p: Some(pad(ctr, 200 + (key % 40) as usize)) });
+            }
+            steps.push(Step::Op(Op::Insert(v)));
+        }
+    }
+    let base: Vec<R> = (0..6u32)
+        .map(|i| R { key: 11 + i, u: 101 + i as i64, a: if i == 5 { None } else { Some([1, 2, 3, 1, 2][i as usize]) }, p: Some(pad(900 + i as u64, if i == 4 { 300 } else { 8 })) })
+        .collect();
+    steps.push(Step::Op(Op::Insert(base[..3].to_vec())));
+    steps.push(Step::Op(Op::Insert(base[3..].to_vec())));
+    steps.push(Step::Begin);
+    let the_op = match op {
+        "insert" => Op::Insert(vec![R { key: 21, u: 121, a: Some(7), p: Some(pad(950, 8)) }]),
+        "insert_toast" => Op::Insert(vec![R { key: 21, u: 121, a: Some(7), p: Some(pad(951, 1500)) }]),
+        "insert_split" => {
+            // enough rows inside the transaction to split the root
+            let mut v = vec![];
+            for i in 0..330u32 {
+                v.push(R { key: 400 + i, u: 2000 + i as i64, a: Some((i % 10) as i64), p: Some(pad(2000 + i as u64, 200 + (i % 50) as usize)) });
+            }
+            for ch in v.chunks(30) {
+                steps.push(Step::Op(Op::Insert(ch.to_vec())));
+            }
+            Op::Insert(vec![R { key: 21, u: 121, a: Some(7), p: Some(pad(950, 8)) }])
+        }
+        "update_a" => Op::SetA(Pred::Key(13), Some(8)),
+        "update_payload" => Op::SetP(Pred::Key(13), Some(pad(952, 700))),
+        "update_payload_toast" => Op::SetP(Pred::Key(13), Some(pad(953, 1800))),
+        "update_unique_col" => {
+            if !spec.uniq {
+                return None;
+            }
+            Op::SetU(Pred::Key(13), 150)
+        }
+        "update_key" => Op::SetKey(Pred::Key(13), 23),
+        "delete" => Op::Delete(Pred::Key(13)),
+        _ => return None,
+    };
+    match via {
+        "rollback" | "drop_reopen" | "drop_clone" => {
+            steps.push(Step::Op(the_op));
+            steps.push(match via {
+                "rollback" => Step::Rollback,
+                "drop_reopen" => Step::DropReopen,
+                _ => Step::DropClone,
+            });
+        }
+        "rollback_to" => {
+            steps.push(Step::Op(Op::Insert(vec![R { key: 31, u: 131, a: Some(9), p: Some(pad(960, 8)) }])));
+            steps.push(Step::Savepoint(1));
+            steps.push(Step::Op(the_op));
+            steps.push(Step::RollbackTo(1));
+        }
+        "release_nested" => {
+            // SAVEPOINT sp1; op; SAVEPOINT sp2; another insert; RELEASE sp2; ROLLBACK TO sp1 must undo both
+            steps.push(Step::Savepoint(1));
+            steps.push(Step::Op(the_op));
+            steps.push(Step::Savepoint(2));
+            steps.push(Step::Op(Op::Insert(vec![R { key: 31, u: 131, a: Some(9), p: Some(pad(960, 8)) }])));
+            steps.push(Step::Release(2));
+            steps.push(Step::RollbackTo(1));
+        }
+        _ => return None,
+    }
+    let probe_keys = vec![11, 12, 13, 14, 15, 16, 21, 23, 31, 99];
+    let probe_us = vec![101, 102, 103, 104, 105, 106, 121, 131, 150];
+    let later = vec![
+        R { key: 21, u: 5001, a: Some(4), p: Some(pad(7001, 9)) },
+        R { key: 23, u: 5002, a: Some(4), p: Some(pad(7002, 9)) },
+        R { key: 13, u: 5003, a: Some(4), p: Some(pad(7003, 9)) },
+        R { key: 5001, u: 150, a: Some(4), p: Some(pad(7004, 9)) },
+        R { key: 5002, u: 121, a: Some(4), p: Some(pad(7005, 9)) },
+        R { key: 5003, u: 103, a: Some(4), p: Some(pad(7006, 9)) },
+    ];
+    Some(Case { spec, prefix_in_txn: false, steps, probe_keys, probe_us, later })
+}
+
+const OPS: [&str; 8] = ["insert", "insert_toast", "update_a", "update_payload", "update_payload_toast", "update_unique_col", "update_key", "delete"];
+
+fn matrix(quick: bool) -> Vec<Case> {
+    let mut out = vec![];
+    let keys = [KeyKind::NoPk, KeyKind::IntPk, KeyKind::TextPk];
+    // every table variant x every statement kind, plain ROLLBACK
+    for key in keys {
+        for uniq in [false, true] {
+            for idx_a in [false, true] {
+                for op in OPS {
+                    out.extend(matrix_case(Spec { key, uniq, idx_a }, op, "rollback", false));
+                }
+            }
+        }
+    }
+    // the other ways of rolling back, root moved before BEGIN, root split inside the transaction
+    for key in keys {
+        let full = Spec { key, uniq: true, idx_a: true };
+        for via in ["rollback_to", "release_nested", "drop_reopen", "drop_clone"] {
+            for op in OPS {
+                if quick && matches!(op, "insert_toast" | "update_payload_toast") {
+                    continue;
+                }
+                out.extend(matrix_case(full, op, via, false));
+            }
+        }
+        for op in ["insert", "update_a", "update_payload", "update_key", "delete"] {
+            out.extend(matrix_case(full, op, "rollback", true));
+            if !quick {
+                out.extend(matrix_case(Spec { key, uniq: false, idx_a: false }, op, "rollback", true));
+                out.extend(matrix_case(full, op, "drop_reopen", true));
+            }
+        }
+        out.extend(matrix_case(full, "insert_split", "rollback", false));
+        out.extend(matrix_case(Spec { key, uniq: false, idx_a: false }, "insert_split", "rollback", false));
+        if !quick {
+            out.extend(matrix_case(full, "insert_split", "rollback_to", false));
+            out.extend(matrix_case(full, "insert_split", "drop_reopen", false));
+        }
+    }
+    out
+}
+
+/// a violation reduced to the facts that identify its cause
+#[derive(Clone, Debug)]
+struct Cell {
+    assertion: String,
+    cause: String,
+    spec: Spec,
+    ops: BTreeSet<String>,
+    via: String,
+    root_moved: bool,
+    /// non-insert statement kinds before BEGIN
+    pre: BTreeSet<String>,
+    sig: String,
+    script: Vec<String>,
+}
+
+fn via_name(case: &Case, out: &Out) -> String {
+    if out.via == "later" {
+        match case.steps.last() {
+            Some(Step::DropReopen) => "later_after_drop_reopen",
+            Some(Step::DropClone) => "later_after_drop_clone",
+            _ => "later_after_rollback",
+        }
+        .to_string()
+    } else {
+        out.via.to_string()
+    }
+}
+
+fn undone_of(case: &Case, out: &Out) -> BTreeSet<String> {
+    if out.via == "later" {
+        let begin = case.steps.iter().position(|s| *s == Step::Begin).unwrap_or(0);
+        undone_between(case, begin, case.steps.len(), &BTreeMap::new()).into_iter().chain(out.failed_kinds.iter().cloned()).collect()
+    } else {
+        out.undone.clone()
+    }
+}
+
+fn cell_of(v: &Viol, case: &Case, out: &Out) -> Cell {
+    Cell {
+        assertion: v.assertion.clone(),
+        cause: v.cause.clone(),
+        spec: case.spec,
+        ops: undone_of(case, out),
+        via: via_name(case, out),
+        root_moved: matches!(out.root_at_rollback, Some(r) if r != 1),
+        pre: case.pre_kinds(),
+        sig: signature(&v.assertion, &v.cause, case, out),
+        script: case.script(),
+    }
+}
+
+/// every UPDATE rewrites the row, so what an update of the unindexed payload column breaks explains the same
+/// symptom after an update of any other column; likewise a plain insert explains an insert with a TOASTed value
+fn op_le(y: &str, x: &str) -> bool {
+    y == x || (y == "insert" && x == "insert_toast") || (y == "update_payload" && x.starts_with("update_") && !x.ends_with("_failed"))
+}
+
+fn key_le(a: KeyKind, b: KeyKind) -> bool {
+    a == b || a == KeyKind::NoPk || (a == KeyKind::IntPk && b == KeyKind::TextPk)
+}
+
+fn via_le(a: &str, b: &str) -> bool {
+    a == b || (a == "rollback" && !b.starts_with("later")) || (a == "later_after_rollback" && b.starts_with("later"))
+}
+
+/// `y` (a simpler failing case) explains `x`: same failed assertion and cause, and everything `y` needs
+/// (table features, undone statement kinds, way of rolling back, moved root) is also present in `x`
+fn explains(y: &Cell, x: &Cell) -> bool {
+    y.assertion == x.assertion
+        && y.cause == x.cause
+        && y.ops.iter().all(|a| x.ops.iter().any(|b| op_le(a, b)))
+        && key_le(y.spec.key, x.spec.key)
+        && (!y.spec.uniq || x.spec.uniq)
+        && (!y.spec.idx_a || x.spec.idx_a)
+        && via_le(&y.via, &x.via)
+        && (!y.root_moved || x.root_moved)
+        && y.pre.is_subset(&x.pre)
+}
+
+fn rank(c: &Cell) -> (usize, usize, usize, usize, usize, String) {
+    let k = match c.spec.key {
+        KeyKind::NoPk => 0,
+        KeyKind::IntPk => 1,
+        KeyKind::TextPk => 2,
+    };
+    // statement kinds that another kind subsumes (see op_le) count as more complex
+    let special = c.ops.iter().filter(|o| !matches!(o.as_str(), "insert" | "update_payload" | "delete")).count();
+    (c.ops.len() + c.root_moved as usize + c.pre.len(), special, k + c.spec.uniq as usize + c.spec.idx_a as usize, if c.via == "rollback" || c.via == "later_after_rollback" { 0 } else { 1 }, k, c.sig.clone())
+}
+
+// -------------------------------------------------------------------------------------------- run
+
+fn run_all(scratch: &Scratch, cases: &[Case], threads: usize, deadline: std::time::Instant, tag: &str) -> Vec<(usize, Out)> {
+    let results = std::sync::Mutex::new(vec![]);
+    let next = std::sync::atomic::AtomicUsize::new(0);
+    std::thread::scope(|s| {
+        for t in 0..threads {
+            let (results, next) = (&results, &next);
+            s.spawn(move || loop {
+                let i = next.fetch_add(1, std::sync::atomic::Ordering::SeqCst);
+                if i >= cases.len() || std::time::Instant::now() > deadline {
+                    break;
+                }
+                let out = run_case(scratch, &format!("{}{}", tag, t), &cases[i]);
+                results.lock().unwrap().push((i, out));
+            });
+        }
+    });
+    let mut results = results.into_inner().unwrap();
+    results.sort_by_key(|r| r.0);
+    results
+}
+
+fn tally(ctx: &mut Ctx, case: &Case, out: &Out) {
+    ctx.eval();
+    ctx.count("statements_executed", out.stmts);
+    ctx.count("rollbacks_compared", out.rollbacks_judged);
+    ctx.count("rollback_to_savepoint_compared", out.savepoint_rollbacks);
+    ctx.count("statements_failed_inside_txn", out.failed_in_txn);
+    ctx.count("later_inserts_judged", out.later_judged);
+    ctx.count("later_inserts_not_judged_control_disagrees_with_snapshot", out.later_not_judged);
+    if out.control_diverged {
+        ctx.count("control_database_diverged_not_judged", 1);
+    }
+    if out.aborted.is_some() {
+        ctx.count("cases_aborted_not_judged", 1);
+    }
+    if out.max_depth >= 2 {
+        ctx.count("cases_with_nested_savepoints", 1);
+    }
+    if matches!(out.root_at_rollback, Some(r) if r != 1) {
+        ctx.count("rollbacks_with_table_root_moved_off_page_1", 1);
+    }
+    match case.steps.last() {
+        Some(Step::DropReopen) => ctx.count("ended_by_drop_and_reopen", 1),
+        Some(Step::DropClone) => ctx.count("ended_by_drop_observed_through_clone", 1),
+        Some(Step::Rollback) => ctx.count("ended_by_rollback", 1),
+        Some(Step::RollbackTo(_)) => ctx.count("ended_by_rollback_to", 1),
+        _ => ctx.count("ended_by_commit", 1),
+    }
+    for (class, idx) in &out.index_plans {
+        ctx.count(&format!("explain_{}_{}", class, if *idx { "index_path" } else { "no_index_path" }), 1);
+    }
+    if out.rollbacks_judged > 0 && (out.stmts as i64 - out.failed_in_txn as i64) > 0 {
+        ctx.nontrivial(case.hash());
+    }
+}
+
+/// debugging aid: TV_C07_SHOW=<substring> prints the detail of the first violation of every matching signature
+fn show(seen: &mut BTreeSet<String>, sig: &str, detail: &J) {
+    if let Ok(pat) = std::env::var("TV_C07_SHOW") {
+        if sig.contains(&pat) && seen.insert(sig.to_string()) {
+            println!("SHOW {}\n{}", sig, serde_json::to_string_pretty(detail).unwrap_or_default());
+        }
+    }
+}
 
 pub fn run(a: &Args) -> i32 {
-    run_prop(a, "C07", Focus::Txn, "generated histories with BEGIN / nested SAVEPOINT / RELEASE / ROLLBACK TO / ROLLBACK / COMMIT around inserts, updates and deletes on indexed and unindexed tables with and without integer PK; after every ROLLBACK [TO] every table bag and COUNT(*) must equal the model's snapshot; later statements (re-inserting keys that existed / did not exist at the snapshot) keep being compared. distinct_nontrivial = distinct histories in which at least one rollback was observed")
+    let mut shown: BTreeSet<String> = BTreeSet::new();
+    let mut ctx = Ctx::new(
+        "C07",
+        &a.tier,
+        a.seed,
+        "exploration",
+        "(1) directed matrix: every table variant (integer PK / text PK / no PK) x (UNIQUE column) x (secondary index) x every statement kind (insert, insert with TOASTed value, update of indexed / payload-growing / TOASTed / UNIQUE / key column, delete) undone by ROLLBACK, plus ROLLBACK TO, nested SAVEPOINT+RELEASE+ROLLBACK TO, drop of the handle then Database::open, drop then observe through a clone, a table whose B-tree root already moved off page 1, and a root split inside the transaction; (2) generated histories on the same tables with nested SAVEPOINT / RELEASE / repeated ROLLBACK TO and mixed statements; (3) fixed scenarios through prepared statements (cached plans), two tables, composite index. Oracle: the observation vector (SELECT * bag, COUNT(*), point lookups through PK / UNIQUE / secondary index for a fixed probe set incl. old and new values, range lookups; index path confirmed by EXPLAIN) taken before BEGIN / after SAVEPOINT must be reproduced after ROLLBACK [TO] / drop; afterwards later INSERTs of keys present/absent at BEGIN must be rejected/accepted exactly as on a control database that never ran the transaction, and the final vectors must agree. Signature = assertion/cause/minimal table features/undone statement kinds/way of rolling back; a violation of a generated history is attributed to the simplest matrix cell that explains it, otherwise shrunk. distinct_nontrivial = distinct histories in which a rollback of at least one successfully executed statement was compared",
+    );
+    let quick = ctx.quick();
+    if cfg!(miri) {
+        // turdb::Database needs real files (mmap): nothing of this check can run under Miri
+        ctx.inconclusive("Database requires mmap'd files; not runnable under Miri");
+        return ctx.finish();
+    }
+    let t0 = std::time::Instant::now();
+    let secs = |s: u64| t0 + std::time::Duration::from_secs(s);
+    let scratch = Scratch::new("c07");
+    let threads = 8usize;
+    scripted(&scratch, &mut ctx);
+
+    // ---- (1) matrix
+    let mcases = matrix(quick);
+    let mres = run_all(&scratch, &mcases, threads, secs(if quick { 24 } else { 200 }), "m");
+    if mres.len() < mcases.len() {
+        ctx.count("matrix_cells_skipped_time_budget", (mcases.len() - mres.len()) as u64);
+    }
+    let mut cells: Vec<Cell> = vec![];
+    let mut mviol: Vec<(Cell, J)> = vec![];
+    for (i, out) in &mres {
+        let case = &mcases[*i];
+        tally(&mut ctx, case, out);
+        ctx.count("matrix_cells_run", 1);
+        if *i == 0 || *i == 95 {
+            ctx.sample(json!({"matrix_cell": i, "table": case.spec.traits(), "script": case.script_short()}));
+        }
+        for v in &out.viols {
+            let c = cell_of(v, case, out);
+            mviol.push((c.clone(), v.detail.clone()));
+            cells.push(c);
+        }
+    }
+    cells.sort_by_key(rank);
+    let mut by_sig: BTreeMap<String, u64> = BTreeMap::new();
+    for (c, detail) in &mviol {
+        let by = cells.iter().find(|y| explains(y, c)).unwrap_or(c);
+        *by_sig.entry(by.sig.clone()).or_insert(0) += 1;
+        let detail = json!({"matrix_cell": c.sig, "script": c.script, "detail": detail, "simplest_failing_cell": by.script});
+        show(&mut shown, &by.sig, &detail);
+        ctx.violation(&c.assertion, &by.sig, detail);
+    }
+
+    // ---- (2) generated histories
+    let (n_small, n_bulk) = if quick { (300usize, 6usize) } else { (12000, 150) };
+    let mut seeds = Rng::derive(a.seed, 7);
+    let every = (n_small + n_bulk) / n_bulk;
+    let cases: Vec<Case> = (0..n_small + n_bulk)
+        .map(|i| {
+            let shape = if i % every == every / 2 {
+                if (i / every) % 2 == 0 {
+                    Shape::BulkInTxn
+                } else {
+                    Shape::BulkPrefix
+                }
+            } else {
+                Shape::Small
+            };
+            gen_case(seeds.next(), shape)
+        })
+        .collect();
+    let res = run_all(&scratch, &cases, threads, secs(if quick { 36 } else { 420 }), "w");
+    if res.len() < cases.len() {
+        ctx.count("generated_cases_skipped_time_budget", (cases.len() - res.len()) as u64);
+    }
+    let shrink_deadline = secs(if quick { 50 } else { 560 });
+    let mut pending: Vec<(usize, Viol, Cell)> = vec![];
+    for (i, out) in &res {
+        let case = &cases[*i];
+        tally(&mut ctx, case, out);
+        ctx.count("generated_cases_run", 1);
+        if *i < 2 {
+            ctx.sample(json!({"generated_case": i, "table": case.spec.traits(), "script": case.script_short().into_iter().take(24).collect::<Vec<_>>()}));
+        }
+        for v in &out.viols {
+            let c = cell_of(v, case, out);
+            match cells.iter().find(|y| explains(y, &c)) {
+                Some(by) => {
+                    ctx.count("generated_violations_explained_by_simpler_failing_case", 1);
+                    *by_sig.entry(by.sig.clone()).or_insert(0) += 1;
+                    let detail = json!({"generated_case": i, "script": c.script, "detail": v.detail, "simplest_failing_case": by.script});
+        show(&mut shown, &by.sig, &detail);
+        ctx.violation(&v.assertion, &by.sig, detail);
+                }
+                None => pending.push((*i, v.clone(), c)),
+            }
+        }
+    }
+    // violations no matrix cell explains: shrink, then let the minimal case explain the others
+    for (i, v, c) in pending {
+        if let Some(by) = cells.iter().find(|y| explains(y, &c)) {
+            ctx.count("generated_violations_explained_by_simpler_failing_case", 1);
+            *by_sig.entry(by.sig.clone()).or_insert(0) += 1;
+            let detail = json!({"generated_case": i, "script": c.script, "detail": v.detail, "simplest_failing_case": by.script});
+        show(&mut shown, &by.sig, &detail);
+        ctx.violation(&v.assertion, &by.sig, detail);
+            continue;
+        }
+        if std::time::Instant::now() > shrink_deadline {
+            // out of time: reported under the unshrunk facts (stable only up to the generator's mix of statements)
+            ctx.count("violations_not_shrunk_time_budget", 1);
+            let sig = format!("C07/{}/not_minimised/{}", v.assertion, v.cause);
+            *by_sig.entry(sig.clone()).or_insert(0) += 1;
+            let detail = json!({"generated_case": i, "script": c.script, "detail": v.detail});
+        show(&mut shown, &sig, &detail);
+        ctx.violation(&v.assertion, &sig, detail);
+            continue;
+        }
+        ctx.count("violations_shrunk", 1);
+        let (small, sout) = shrink(&scratch, &cases[i], &v.assertion, &v.cause, if quick { 36 } else { 140 });
+        let (sc, sdetail) = match sout.viols.iter().find(|x| x.assertion == v.assertion && x.cause == v.cause) {
+            Some(sv) => (cell_of(sv, &small, &sout), sv.detail.clone()),
+            None => (c.clone(), v.detail.clone()), // not reproducible on re-run: keep the original facts
+        };
+        // the minimal case may itself be explained by a matrix cell (it needed the generated context only by accident)
+        let by = cells.iter().find(|y| explains(y, &sc)).cloned().unwrap_or_else(|| sc.clone());
+        *by_sig.entry(by.sig.clone()).or_insert(0) += 1;
+        let later: Vec<String> = if sout.via == "later" { small.later.iter().map(|r| format!("INSERT INTO t VALUES {}", row_sql(&small.spec, r))).collect() } else { vec![] };
+        let detail = json!({"generated_case": i, "minimal_script": sc.script, "minimal_later_inserts": later, "minimal_detail": sdetail, "table_root_page_at_rollback": sout.root_at_rollback, "statements_failed_inside_txn": sout.failed_kinds, "original_script": c.script, "original_detail": v.detail});
+        show(&mut shown, &by.sig, &detail);
+        ctx.violation(&v.assertion, &by.sig, detail);
+        cells.push(sc);
+        cells.sort_by_key(rank);
+    }
+    ctx.extra.insert("violations_by_signature".into(), json!(by_sig));
+    ctx.assumptions.push("AUTO_INCREMENT is not generated (counters need not roll back); hidden row ids are never observed (bags, not order); RELEASE is taken to destroy the savepoint and all later ones, released savepoints and duplicate savepoint names are never referenced; TRUNCATE/DDL inside a transaction, ON CONFLICT, UPDATE..FROM and ON DELETE CASCADE are not generated (transactional behaviour undocumented); a statement that fails inside the transaction is not a rollback defect: it is recorded, the shrinker drops it if the violation does not need it, otherwise the signature names it as `<kind>_failed`".into());
+    ctx.finish()
 }
